@@ -73,18 +73,9 @@ def run(repo, res):
     res.count('binders', len(brecs), floor=45)
 
     # ---- R2 all alternatives marked / expanded ----------------------------------------
-    un = repo.module_func(LINTER, 'use_name')
-    ok = False
-    for st in ast.walk(un):
-        if isinstance(st, ast.For) and unparse(st.iter).endswith('.alt_names'):
-            marks = [s for s in st.body if isinstance(s, ast.Assign) and unparse(s.targets[0]).endswith('.used')
-                     and isinstance(s.value, ast.Constant) and s.value.value is True]
-            clean = not any(isinstance(x, (ast.Break, ast.Continue, ast.Return, ast.If)) for s in st.body
-                            for x in ast.walk(s))
-            ok = bool(marks) and clean and not st.orelse
-    res.check('C02-R2', 'use_name marks all alternatives', ok, LINTER, un.lineno,
-              'lint must mark every alternative of a multiply-bound name as used (loop over alt_names '
-              'with no slice, filter or early exit)')
+    lint = repo.module_func(LINTER, 'lint')
+    from .. import api_model
+    api_model.apply(res, api_model.lint_model(repo), {'marks': 'C02-R2'}, LINTER, lint.lineno)
     decl = repo.method(EVAL, 'EvalCtx', 'declarations')
     ok = False
     for st in ast.walk(decl):
@@ -95,47 +86,6 @@ def run(repo, res):
                   and '[:' not in txt)
     res.check('C02-R2', 'declarations expands all alternatives', ok, EVAL, decl.lineno,
               'declarations() must append the complete list of valid alternatives of a MultiName')
-    lint = repo.module_func(LINTER, 'lint')
-    calls = [c for c in ast.walk(lint) if isinstance(c, ast.Call) and unparse(c.func) == 'use_name']
-    res.check('C02-R2', 'lint applies use_name to the looked-up entry',
-              any(unparse(c.args[0]) == 'sname' for c in calls), LINTER, lint.lineno,
-              'lint must mark the entry it looked up for the read', nontrivial=False)
-    # must-pass: on every path through the "name found" branch the looked-up entry (or, for locals(), every
-    # entry of the scope) is marked used
-    found_branch = None
-    for t in ast.walk(lint):
-        if isinstance(t, ast.Try) and any(h.type is not None and unparse(h.type) == 'KeyError' for h in t.handlers) \
-                and t.orelse:
-            found_branch = t.orelse
-
-    def paths(stmts):
-        out = [[]]
-        for st in stmts:
-            if isinstance(st, ast.If):
-                a = paths(st.body)
-                b = paths(st.orelse)
-                out = [p + [('if', st, True)] + q for p in out for q in a] + [p + [('if', st, False)] + q for p in out for q in b]
-            else:
-                out = [p + [('stmt', st, None)] for p in out]
-        return out
-    ok = found_branch is not None
-    missed = None
-    if ok:
-        for path in paths(found_branch):
-            marked = False
-            for kind, st, taken in path:
-                if kind == 'stmt':
-                    for c in ast.walk(st):
-                        if isinstance(c, ast.Call) and unparse(c.func) == 'use_name':
-                            marked = True
-            if not marked:
-                ok = False
-                missed = [unparse(st.test) + ('' if taken else ' is false') for kind, st, taken in path if kind == 'if']
-    res.check('C02-R2', 'every found read marks its entry used', ok, LINTER, lint.lineno,
-              'on the path %s of the "name found" branch of lint no use_name(...) is executed: the binding the read refers to '
-              'stays unmarked and is reported unused' % (missed,),
-              sample='all paths of the found-branch call use_name')
-
     # ---- R3 no partial join memoised ----------------------------------------------------
     c04.rule_provisional_memo(repo, res, 'C02-R3', only_cycle='LoopFlow.names')
 
